@@ -180,6 +180,47 @@ def sbt%(u)s_b(x):
 print(sbt%(u)s_a(%(b)d)[0], sbt%(u)s_b(-1)[0])""" % {"u": u, "e": elems, "k": 2 ** 40 + base, "b": base + 3}
 
 
+@template(minlevel=(3, 6), py2=False, tags=("frozenset", "bytes", "text"))
+def t_set_of_bytes(rng, lvl, u):
+    """Frozenset constants whose members are bytes (valid UTF-8 and not), text and mixtures of equal-looking bytes/text."""
+    return """def sb%(u)s(x):
+    if x in {b"GET", b"POST", b"HEAD"}:
+        return 1
+    if x in {b"a", "a", b"\\xff\\xfe", "caf\\xe9", b"caf\\xc3\\xa9"}:
+        return 2
+    if x in {1, 1.5, b"1", "1", (b"t", "t")}:
+        return 3
+    return 0
+print(sb%(u)s(b"GET"), sb%(u)s("a"), sb%(u)s(b"1"), sb%(u)s(None))""" % {"u": u}
+
+
+@template(tags=("py2_raise3", "try"), py2=True)
+def t_py2_raise(rng, lvl, u):
+    """Python 2 only: the three-argument raise (RAISE_VARARGS 3), two-argument raise, exec and backticks."""
+    if lvl >= (3, 0):
+        return "def r3%s():\n    raise ValueError('x')\ntry:\n    r3%s()\nexcept ValueError:\n    print('ve')" % (u, u)
+    return """import sys
+def r3%(u)s():
+    try:
+        raise ValueError, "three", None
+    except ValueError:
+        tb = sys.exc_info()[2]
+    try:
+        raise KeyError, "again", tb
+    except KeyError, e:
+        return `e.args`
+def r2%(u)s():
+    try:
+        raise IndexError, "two"
+    except IndexError, e:
+        return e.args
+def ex%(u)s():
+    d = {}
+    exec "z = 1 + 2" in d
+    return d["z"]
+print(r3%(u)s(), r2%(u)s(), ex%(u)s())""" % {"u": u}
+
+
 @template(tags=("shared_consts", "FLAG_REF", "frozenset"))
 def t_shared_frozenset(rng, lvl, u):
     """The same set display (ints or bytes) in a class body and in its methods: the compiler merges the
@@ -642,7 +683,7 @@ def wrap_in_class(code, u):
     return "class Wrap%s(object):\n%s\n    pass" % (u, ind)
 
 
-NO_WRAP = {"t_ext_edges", "t_shared_frozenset", "t_shared_big_tuple", "t_many_names", "t_misc", "t_import", "t_pep695", "t_line_gaps"}
+NO_WRAP = {"t_py2_raise", "t_ext_edges", "t_shared_frozenset", "t_shared_big_tuple", "t_many_names", "t_misc", "t_import", "t_pep695", "t_line_gaps"}
 NO_CLASS_WRAP = NO_WRAP | {"t_long_loop", "t_class3", "t_closure", "t_shared", "t_class2", "t_async", "t_control", "t_deep",
                            "t_backward_lines", "t_long_columns", "t_py2_long", "t_ints", "t_floats", "t_complex",
                            "t_strings", "t_bytes", "t_comp", "t_misc3", "t_try_nest", "t_match", "t_except_star",
